@@ -111,3 +111,24 @@ Proof. vm_compute. repeat split; reflexivity. Qed.
 Theorem C14_write_sequence_is_one_critical_section : Tie.LocksTie.write_sequence_atomic_stmt.
 Proof. exact Tie.LocksTie.write_sequence_atomic. Qed.
 Print Assumptions C14_write_sequence_is_one_critical_section.
+
+(* ---- the fallback writer (memory.writeTo, taken when the kernel refuses mprotect(RWX)) ---- *)
+(* what the property asks of a write holds for its bytes and its final protections ... *)
+Theorem C14_fallback_write_frame : forall ps m addr data x,
+  bytes (run_steps m (steps_of ps addr data Gen.Page.writeTo_fallback_shape)) x =
+  if (addr <=? x) && (x <? addr + lenZ data) then nth (Z.to_nat (x - addr)) data 0 else bytes m x.
+Proof. intros. rewrite tie_fallback_shape. apply fallback_write_frame. Qed.
+Theorem C14_fallback_final_rx : forall ps m addr data q,
+  perms (run_steps m (steps_of ps addr data Gen.Page.writeTo_fallback_shape)) q =
+  if existsb (fun p => q =? p) (pages_of ps addr (lenZ data)) then {| p_r := true; p_w := false; p_x := true |}
+  else perms m q.
+Proof. intros. rewrite tie_fallback_shape. apply fallback_final_rx. Qed.
+(* ... but "pages remain executable throughout" is REFUTED on this path (known finding F14a): the regenerated first pass
+   asks for PROT_READ|PROT_WRITE. The witness replays on the implementation: the syscall trace of the fallback on a
+   sacrificial page shows mprotect(page, PROT_READ|PROT_WRITE) before the copy (stream c14 -extra fallback-trace) *)
+Theorem C14_fallback_always_exec_refuted :
+  exists ps m addr data mi q,
+    In mi (trace m (steps_of ps addr data Gen.Page.writeTo_fallback_shape)) /\ p_x (perms m q) = true /\ p_x (perms mi q) = false.
+Proof. rewrite tie_fallback_shape. exact fallback_drops_exec_refuted. Qed.
+Print Assumptions C14_fallback_always_exec_refuted.
+
